@@ -362,11 +362,19 @@ def lower_bound_link(P, R, rule='C19.TAB.1'):
     if f is None:
         raise AnalysisBroken('set_lower has vanished')
     n = 0
+    cases = []
     for s in f.sites():
         if s.ev['k'] != 'ret' or s.ev.get('val') is None or const_of(s.ev['val']) == 0:
             continue
         v = f.expand_local(s.ev['val'], s)
-        gs = f.guards(s.bid)
+        if v.get('k') == 'cond':
+            from ..model import rel as _rel
+            cases.append((s, v['t'], f.guards(s.bid) + [_rel(f.expand_local(v['c'], s), True)]))
+            cases.append((s, v['f'], f.guards(s.bid) + [_rel(f.expand_local(v['c'], s), False)]))
+        else:
+            cases.append((s, v, f.guards(s.bid)))
+    for s, v, gs in cases:
+        gs = [(g[0], g[1], g[2]) if not (isinstance(g[0], dict) and g[0].get('k') == 'callref' and g[0].get('callee') == 'set_splay') else ({'k': 'var', 'name': '<splay>', 't': 'int', 'sc': 'local'}, g[1], g[2]) for g in gs]
         greater = any(is_var(g[0]) and g[1] in ('>', '>=') and const_of(g[2]) in (0, 1) and g[0].get('t') == 'int' and not (g[1] == '>=' and const_of(g[2]) == 0) for g in gs)
         n += 1
         if greater:
